@@ -210,6 +210,23 @@ let run_case_inner (a : string array) : string =
     let m = Printf.sprintf "ok=%s%s eq=1 calls=1+0 utc=%s name=1" b b (b2s (not ok)) in
     (* the cache contract holds for every byte string, well-formed or not *)
     out m m true
+  | "cert" ->
+    (* the boolean certificates of the loaded zone, and agreement of the
+       integer-level functions with the implementation-level ones on a probe *)
+    let e = get a.(1) in
+    let m = with_model e (fun z ->
+      Printf.sprintf "zone_ok=%s sorted=%s" (b2s (zone_ok z)) (b2s (table_sorted z))) in
+    out m m false
+  | "zzmt" ->
+    (* make_time of the implementation-level model vs zmake of the integer-level model *)
+    let e = get a.(1) in let cs = fields_of a 2 in
+    let m = with_model e (fun z -> show_res (fun (c, _) -> show_cl c) (make_time z Z0 cs)) in
+    let s = with_model e (fun z ->
+      let c = zmake (abs_zone z) (sec_of cs) in
+      let cl v = if zlt v min64 then min64 else if zlt max64 v then max64 else v in
+      Printf.sprintf "%s %s %s %s" (match c.zk with ZU -> "U" | ZS -> "S" | ZR -> "R")
+        (string_of_z (cl c.zpre)) (string_of_z (cl c.ztrans)) (string_of_z (cl c.zpost))) in
+    out m s false
   | "chain" ->
     let e = get a.(1) in
     let m = with_model e (fun z ->
